@@ -10,10 +10,10 @@ git diff -- tdda > /tmp/seeded_$name.diff
 [ -s /tmp/seeded_$name.diff ] || cp patch.diff /tmp/seeded_$name.diff
 echo "== with change:"; /venv/bin/python $demo > /tmp/seeded_$name.with 2>&1; echo "demo exit $?"; tail -3 /tmp/seeded_$name.with
 with_counts=$(/venv/bin/python -m pytest -q -p no:cacheprovider --timeout=900 --continue-on-collection-errors 2>&1 | tail -1)
-git stash -q -- tdda
+git checkout -- tdda   # (no git stash: the stash list is shared by all worktrees)
 echo "== without change:"; /venv/bin/python $demo > /tmp/seeded_$name.without 2>&1; echo "demo exit $?"; tail -2 /tmp/seeded_$name.without
 without_counts=$(/venv/bin/python -m pytest -q -p no:cacheprovider --timeout=900 --continue-on-collection-errors 2>&1 | tail -1)
-git stash pop -q
+git apply /tmp/seeded_$name.diff
 echo "suite with:    $with_counts"; echo "suite without: $without_counts"
 mkdir -p /verif/seeded/$name
 cp /tmp/seeded_$name.diff /verif/seeded/$name/patch.diff
